@@ -159,7 +159,10 @@ def run_main(argv: List[str], cd: CaseDir, cwd: Optional[str] = None, main_progr
         except BaseException as ex:
             res['exception'] = '%s: %s' % (type(ex).__name__, str(ex)[:300])
             res['traceback'] = traceback.format_exc()[-1500:]
-    res['cwd_after'] = os.getcwd()
+    try:
+        res['cwd_after'] = os.getcwd()
+    except FileNotFoundError:          # the process was left in a directory that no longer exists
+        res['cwd_after'] = '(removed directory)'
     res['cwd_before'] = os.path.realpath(cwd)
     env_after = dict(os.environ)
     res['env_changed'] = sorted(k for k in set(env_before) | set(env_after)
